@@ -996,7 +996,7 @@ func main() {
 
 	if args.Tier == "thorough" {
 		nDocs, coqBudget, leafCap = 150, 9000, 100
-		jwtEvery, jwtCoqEvery = 1, 3
+		jwtEvery, jwtCoqEvery = 2, 6
 	}
 
 	g := &gen{rng: rng.Fork(1), w: w}
